@@ -178,8 +178,9 @@ def scan_file(text):
     events.sort()
     res = []
     stack = []        # (kind, name, depth at which its block was opened)
-    pending = None    # (kind, name) waiting for its `{`
+    pending = None    # (kind, name, bracket depth) waiting for its `{`
     depth = 0
+    pd = 0            # ( [ nesting: a `;` inside `[u8; 32]` does not end a signature
     ei = 0
     i, n = 0, len(src)
     while i < n:
@@ -194,8 +195,12 @@ def scan_file(text):
                 q = (impls[-1][1] + "::" if impls else "") + fn
                 res.append((q, name, src.count("\n", 0, i) + 1))
             else:
-                pending = (kind, name)
+                pending = (kind, name, pd)
         c = src[i]
+        if c in "([":
+            pd += 1
+        elif c in ")]":
+            pd -= 1
         if c == "{":
             if pending:
                 stack.append((pending[0], pending[1], depth))
@@ -205,7 +210,7 @@ def scan_file(text):
             depth -= 1
             while stack and stack[-1][2] >= depth:
                 stack.pop()
-        elif c == ";" and pending and pending[0] == "fn":
+        elif c == ";" and pending and pending[0] == "fn" and pd == pending[2]:
             pending = None
         i += 1
     return res
@@ -260,7 +265,7 @@ SPEC = {
     "id": "C20",
     "components": [
         {"comp": "timer_table", "module": "QV.Model.TimerTable", "quick": 1500, "thorough": 40000},
-        {"comp": "sim_c20", "module": "QV.Sys.MonC20", "quick": 96, "thorough": 2400},
+        {"comp": "sim_c20", "module": "QV.Sys.MonC20", "quick": 160, "thorough": 2400},
     ],
     "extra": [ambient_inventory],
     "assumptions": [
